@@ -44,18 +44,41 @@ TEXTS = [
     "k = \"multi\n line\"\nj =\n\n\nq =\nEND\n",
     "a =\nb = 2\nOBJECT = o\n c =\n",                 # empty values, then fatal
     "x =\nGROUP = g\n y =\nEND_GROUP = other\n",       # empty values, then fatal
+    "/* hdr */\na = 1 /* t */\nb = \"x y\"\nc = 5 <m>\nEND\n",   # comments, then fine
+    "/* c */ a = 'unterminated\n",                    # comment, then dies in a quote
+    "/* c */ k = 5 <unclosed\n",                      # ... in a units expression
+    "/* c */\nn = 16#FF\n",                           # ... in a based number
 ]
 PARSERS = ("PVL", "ODL", "PDS3", "ISIS", "default")
+# how the long-lived instance is called: directly, through pvl.loads/load with
+# parser=, and through pvl.loads with a grammar and decoder of ANOTHER dialect
+# given alongside (documented as ignored when a parser is given)
+PCALLS = ("parse", "loads", "loads+other", "load")
+ECALLS = ("encode", "dumps", "dumps+other")
+OTHER = {"PVL": "ODL", "ODL": "ISIS", "PDS3": "PVL", "ISIS": "PDS3", "default": "PVL"}
 
 
 def nshards(tier):
-    return 8
+    return 16
 
 
-def observe_parse(pvl, parser, text):
+def other_pair(pvl, reader):
+    o = strict_parser(pvl, OTHER[reader])
+    return o.grammar, o.decoder
+
+
+def observe_parse(pvl, parser, text, call="parse", reader=None):
     try:
         with common.cpu_limit(30):
-            m = parser.parse(text)
+            if call == "parse":
+                m = parser.parse(text)
+            elif call == "loads":
+                m = pvl.loads(text, parser=parser)
+            elif call == "load":
+                m = pvl.load(io.StringIO(text), parser=parser)
+            else:
+                g, d = other_pair(pvl, reader)
+                m = pvl.loads(text, parser=parser, grammar=g, decoder=d)
         return ("ok", snapshot(m), tuple(getattr(m, "errors", ())))
     except common.CaseTimeout:
         return ("timeout",)
@@ -65,19 +88,29 @@ def observe_parse(pvl, parser, text):
                 str(e)[:300])
 
 
-def parser_histories(rec, hb, pvl, tier, seed, part, nparts):
+def parser_histories(rec, hb, pvl, tier, seed, part, nparts, pristine):
     fresh_cache = {}
 
-    def fresh(reader, text):
-        k = (reader, text)
+    def fresh(reader, call, text):
+        """The same single call on a fresh instance in a pristine process."""
+        k = (reader, call, text)
         if k not in fresh_cache:
-            fresh_cache[k] = observe_parse(pvl, strict_parser(pvl, reader), text)
+            fresh_cache[k] = pristine.ask(("parse", reader, call, text))
+            rec.count("pristine_process_references")
         return fresh_cache[k]
 
-    hists = [h for n in (2, 3) for h in itertools.product(range(len(TEXTS)), repeat=n)]
+    T = range(len(TEXTS))
+    hists = [tuple((0, t) for t in h) for h in itertools.product(T, repeat=2)]
+    triples = [tuple((0, t) for t in h) for h in itertools.product(T, repeat=3)]
+    if tier == "quick":
+        triples = triples[::2]
+    hists += triples
+    # every other way of calling the instance first, then a plain parse
+    hists += [((c, t1), (0, t2)) for c in range(1, len(PCALLS)) for t1 in T for t2 in T]
     rng = random.Random(f"C16-{seed}")
-    for _ in range(200 if tier == "quick" else 40000):
-        hists.append(tuple(rng.randrange(len(TEXTS))
+    for _ in range(300 if tier == "quick" else 40000):
+        hists.append(tuple((rng.randrange(len(PCALLS)) if rng.random() < 0.5 else 0,
+                            rng.randrange(len(TEXTS)))
                            for _ in range(rng.randint(4, 12))))
     n = 0
     for reader in PARSERS:
@@ -87,27 +120,36 @@ def parser_histories(rec, hb, pvl, tier, seed, part, nparts):
                 continue
             hb.beat()
             inst = strict_parser(pvl, reader)
+            show = [(PCALLS[c], TEXTS[t]) for c, t in h]
             rec.case(("parser", reader, h), len(h) >= 2,
-                     sample={"parser": reader, "history": [TEXTS[i] for i in h]}
+                     sample={"parser": reader, "history": show}
                      if n % 4001 == 0 else None)
-            for step, ti in enumerate(h):
-                got = observe_parse(pvl, inst, TEXTS[ti])
-                want = fresh(reader, TEXTS[ti])
+            for step, (ci, ti) in enumerate(h):
+                got = observe_parse(pvl, inst, TEXTS[ti], PCALLS[ci], reader)
+                want = fresh(reader, PCALLS[ci], TEXTS[ti])
                 rec.count("parser_steps_compared")
+                rec.count(f"parser_calls[{PCALLS[ci]}]")
                 if got != want:
                     prev = h[:step]
                     what = ("errors" if got[:2] == want[:2] and got[0] == "ok"
                             else "result" if got[0] == want[0] == "ok"
                             else "exception" if got[0] == want[0] else "outcome")
+                    here = observe_parse(pvl, strict_parser(pvl, reader), TEXTS[ti],
+                                         PCALLS[ci], reader)
                     rec.violation(
                         CHECK, reader, "reused-parser-differs-from-fresh",
                         {"what": what,
                          "an_earlier_text_had_empty_values":
-                             any("=\n" in TEXTS[i] for i in prev),
+                             any("=\n" in TEXTS[t] for c, t in prev),
                          "an_earlier_text_failed":
-                             any(fresh(reader, TEXTS[i])[0] == "exc" for i in prev)},
-                        {"parser": reader, "history": [TEXTS[i] for i in h[:step + 1]]},
-                        f"step {step}: reused {got!r:.200} vs fresh {want!r:.200}")
+                             any(fresh(reader, PCALLS[c], TEXTS[t])[0] == "exc"
+                                 for c, t in prev),
+                         "an_earlier_call_lent_grammar_and_decoder":
+                             any(PCALLS[c] == "loads+other" for c, t in prev),
+                         "state_is_outside_the_instance": here != want},
+                        {"parser": reader, "history": show[:step + 1]},
+                        f"step {step}: reused {got!r:.200} vs fresh instance in a "
+                        f"pristine process {want!r:.200}")
                     break
 
 
@@ -138,28 +180,44 @@ def encoder_modules(pvl, rng):
     return mods
 
 
-def observe_encode(enc, module):
+def observe_encode(enc, module, call="encode", pvl=None, dialect=None):
     try:
-        return ("ok", enc.encode(clone(module)))
+        if call == "encode":
+            return ("ok", enc.encode(clone(module)))
+        if call == "dumps":
+            return ("ok", pvl.dumps(clone(module), encoder=enc))
+        g, d = other_pair(pvl, dialect)
+        return ("ok", pvl.dumps(clone(module), encoder=enc, grammar=g, decoder=d))
     except Exception as e:
         return ("exc", type(e).__name__, str(e)[:200])
 
 
-def encoder_histories(rec, hb, pvl, tier, seed, part, nparts):
+def encoder_setup(pvl, seed):
+    """Modules and configurations, built before the pristine copy is forked so
+    that both sides hold the same objects."""
     rng = random.Random(f"C16-enc-{seed}")
     mods = encoder_modules(pvl, rng)
+    cfgs = {d: [{}, gen_config(rng, d)] for d in DIALECTS}
+    return mods, cfgs
+
+
+def encoder_histories(rec, hb, pvl, tier, seed, part, nparts, pristine, mods, cfgs):
     base = len(mods) - 14      # the 14 trailing modules are the equal twins
-    hists = [h for n in (2, 3) for h in itertools.product(range(base), repeat=n)]
+    hists = [tuple((0, m) for m in h) for n in (2, 3)
+             for h in itertools.product(range(base), repeat=n)]
     if tier == "quick":
         hists = [h for k, h in enumerate(hists) if k % 3 == 0]
     for t in range(base, len(mods), 2):
-        hists += [(t, t + 1), (t + 1, t), (t, 0, t + 1), (t + 1, t, t + 1)]
+        hists += [((0, t), (0, t + 1)), ((0, t + 1), (0, t)),
+                  ((0, t), (0, 0), (0, t + 1)), ((0, t + 1), (0, t), (0, t + 1))]
     if tier == "thorough":
-        hists += [h for h in itertools.product(range(base, len(mods)), repeat=2)]
+        hists += [tuple((0, m) for m in h)
+                  for h in itertools.product(range(base, len(mods)), repeat=2)]
+    hists += [((c, m1), (0, m2)) for c in range(1, len(ECALLS))
+              for m1 in range(base) for m2 in range(base)]
     n = 0
     for dialect in DIALECTS:
-        cfgs = [{}, gen_config(rng, dialect)]
-        for cfg in cfgs:
+        for cfg_i, cfg in enumerate(cfgs[dialect]):
             fresh_cache = {}
             for h in hists:
                 n += 1
@@ -168,19 +226,28 @@ def encoder_histories(rec, hb, pvl, tier, seed, part, nparts):
                 hb.beat()
                 inst = make_encoder(pvl, dialect, cfg)
                 rec.case(("encoder", dialect, repr(cfg), h), True)
-                for step, mi in enumerate(h):
-                    got = observe_encode(inst, mods[mi])
-                    if mi not in fresh_cache:
-                        fresh_cache[mi] = observe_encode(
-                            make_encoder(pvl, dialect, cfg), mods[mi])
+                for step, (ci, mi) in enumerate(h):
+                    got = observe_encode(inst, mods[mi], ECALLS[ci], pvl, dialect)
+                    k = (ci, mi)
+                    if k not in fresh_cache:
+                        fresh_cache[k] = pristine.ask(("encode", dialect, cfg_i,
+                                                       ECALLS[ci], mi))
+                        rec.count("pristine_process_references")
                     rec.count("encoder_steps_compared")
-                    if got != fresh_cache[mi]:
+                    rec.count(f"encoder_calls[{ECALLS[ci]}]")
+                    if got != fresh_cache[k]:
+                        here = observe_encode(make_encoder(pvl, dialect, cfg), mods[mi],
+                                              ECALLS[ci], pvl, dialect)
                         rec.violation(
                             CHECK, dialect, "reused-encoder-differs-from-fresh",
-                            {"what": got[0] + "-vs-" + fresh_cache[mi][0]},
-                            {"dialect": dialect, "cfg": cfg, "history": list(h[:step + 1]),
+                            {"what": got[0] + "-vs-" + fresh_cache[k][0],
+                             "an_earlier_call_lent_grammar_and_decoder":
+                                 any(ECALLS[c] == "dumps+other" for c, m in h[:step]),
+                             "state_is_outside_the_instance": here != fresh_cache[k]},
+                            {"dialect": dialect, "cfg": cfg,
+                             "history": [(ECALLS[c], m) for c, m in h[:step + 1]],
                              "module": repr(mods[mi])[:500]},
-                            f"step {step}: {got!r:.200} vs {fresh_cache[mi]!r:.200}")
+                            f"step {step}: {got!r:.200} vs {fresh_cache[k]!r:.200}")
                         break
 
 
@@ -246,24 +313,38 @@ DEC_STRINGS = ["1", "1.5", "abc", '"q s"', "'x'", "2001-01-01", "12:00:60", "16#
                "2001-001T12:00:00.5Z", "\"a-\n  b\""]
 
 
-def decoder_histories(rec, hb, pvl, tier, seed, part, nparts):
-    D, G = pvl.decoder, pvl.grammar
-    makers = {
+def decoder_makers(pvl):
+    D = pvl.decoder
+    return {
         "PVLDecoder": lambda: D.PVLDecoder(),
         "ODLDecoder": lambda: D.ODLDecoder(),
         "PDSLabelDecoder": lambda: D.PDSLabelDecoder(),
         "OmniDecoder": lambda: D.OmniDecoder(),
     }
+
+
+def observe_decode(dec, fn, s):
+    try:
+        r = getattr(dec, fn)(s)
+        return ("ok", type(r).__name__, repr(r))
+    except Exception as e:
+        return ("exc", type(e).__name__)
+
+
+def decoder_histories(rec, hb, pvl, tier, seed, part, nparts, pristine):
+    makers = decoder_makers(pvl)
     fns = ("decode_simple_value", "decode_datetime", "decode_quoted_string",
            "decode_decimal", "decode_non_decimal", "decode_unquoted_string")
     rng = random.Random(f"C16-dec-{seed}-{part}")
+    obs = observe_decode
+    fresh_cache = {}
 
-    def obs(dec, fn, s):
-        try:
-            r = getattr(dec, fn)(s)
-            return ("ok", type(r).__name__, repr(r))
-        except Exception as e:
-            return ("exc", type(e).__name__)
+    def fresh(name, fn, s):
+        k = (name, fn, s)
+        if k not in fresh_cache:
+            fresh_cache[k] = pristine.ask(("decode", name, fn, s))
+            rec.count("pristine_process_references")
+        return fresh_cache[k]
 
     for name, mk in makers.items():
         for hnum in range((120 if tier == "quick" else 3000) // nparts + 1):
@@ -274,7 +355,7 @@ def decoder_histories(rec, hb, pvl, tier, seed, part, nparts):
                 fn, s = rng.choice(fns), rng.choice(DEC_STRINGS)
                 hist.append((fn, s))
                 got = obs(inst, fn, s)
-                want = obs(mk(), fn, s)
+                want = fresh(name, fn, s)
                 rec.count("decoder_steps_compared")
                 if got != want:
                     rec.violation(CHECK, name, "reused-decoder-differs-from-fresh",
@@ -339,12 +420,31 @@ def shared_tables(rec, hb, pvl, tier, seed):
 
 def shard(i, n, tier, seed, rec, hb):
     pvl = common.import_pvl()
-    parser_histories(rec, hb, pvl, tier, seed, i, n)
-    encoder_histories(rec, hb, pvl, tier, seed, i, n)
-    shared_object_histories(rec, hb, pvl, tier, seed, i, n)
-    decoder_histories(rec, hb, pvl, tier, seed, i, n)
-    if i == 0:
-        shared_tables(rec, hb, pvl, tier, seed)
+    mods, cfgs = encoder_setup(pvl, seed)
+    makers = decoder_makers(pvl)
+
+    def reference(req):
+        if req[0] == "parse":
+            _, reader, call, text = req
+            return observe_parse(pvl, strict_parser(pvl, reader), text, call, reader)
+        if req[0] == "encode":
+            _, dialect, cfg_i, call, mi = req
+            return observe_encode(make_encoder(pvl, dialect, cfgs[dialect][cfg_i]),
+                                  mods[mi], call, pvl, dialect)
+        _, name, fn, s = req
+        return observe_decode(makers[name](), fn, s)
+
+    # forked before this worker has parsed, written or decoded anything
+    pristine = common.Pristine(reference)
+    try:
+        parser_histories(rec, hb, pvl, tier, seed, i, n, pristine)
+        encoder_histories(rec, hb, pvl, tier, seed, i, n, pristine, mods, cfgs)
+        shared_object_histories(rec, hb, pvl, tier, seed, i, n)
+        decoder_histories(rec, hb, pvl, tier, seed, i, n, pristine)
+        if i == 0:
+            shared_tables(rec, hb, pvl, tier, seed)
+    finally:
+        pristine.close()
 
 
 def finish_kwargs(rec, tier):
@@ -357,20 +457,33 @@ def finish_kwargs(rec, tier):
         required_counters=("parser_steps_compared", "encoder_steps_compared",
                            "decoder_steps_compared", "shared_object_steps_compared",
                            "shared_table_steps_compared",
-                           "shared_writer_steps_compared"))
+                           "shared_writer_steps_compared",
+                           "pristine_process_references",
+                           "parser_calls[loads+other]", "parser_calls[load]",
+                           "encoder_calls[dumps+other]"),
+        assumptions=["the reference for 'that text alone' is a fresh instance in "
+                     "a process forked before the worker processed anything "
+                     "(one fork per reference), so state kept in module globals "
+                     "counts as carried state too"])
 
 
 def replay(data):
     pvl = common.import_pvl()
+
+    def reference(req):
+        _, reader, call, text = req
+        return observe_parse(pvl, strict_parser(pvl, reader), text, call, reader)
+
+    pristine = common.Pristine(reference)
     bad = 0
     for w in data["witnesses"]:
         w = w["witness"]
         if "parser" in w:
             inst = strict_parser(pvl, w["parser"])
-            for t in w["history"]:
-                got = observe_parse(pvl, inst, t)
-                want = observe_parse(pvl, strict_parser(pvl, w["parser"]), t)
-                print(w["parser"], repr(t)[:60], "reused==fresh:", got == want)
+            for call, t in w["history"]:
+                got = observe_parse(pvl, inst, t, call, w["parser"])
+                want = pristine.ask(("parse", w["parser"], call, t))
+                print(w["parser"], call, repr(t)[:60], "reused==fresh:", got == want)
                 if got != want:
                     print("   reused:", repr(got)[:200])
                     print("   fresh :", repr(want)[:200])
@@ -378,4 +491,5 @@ def replay(data):
         else:
             print(w)
             bad += 1
+    pristine.close()
     return 1 if bad else 0
